@@ -202,4 +202,54 @@ theorem mapGet_of_mem {m : List (Nat × Role)} (h : KeysNodup m) {e : Nat × Rol
       simp only [this]
       exact ih h.2 het
 
+/-! membership operations have exactly their effect on the configuration -/
+
+theorem cfgAdd_any (ns : List NodeCfg) (id : Nat) (v : Bool) :
+    (cfgAdd ns id v).any (fun n => n.id == id && n.voter == v) = true := by
+  induction ns with
+  | nil => simp [cfgAdd]
+  | cons n rest ih =>
+    unfold cfgAdd
+    split
+    · simp
+    · rw [List.any_cons, ih]; simp
+
+theorem mem_cfgAdd_of_ne {ns : List NodeCfg} {id : Nat} {v : Bool} {n : NodeCfg}
+    (h : n ∈ ns) (hne : n.id ≠ id) : n ∈ cfgAdd ns id v := by
+  induction ns with
+  | nil => simp at h
+  | cons a rest ih =>
+    unfold cfgAdd
+    rcases List.mem_cons.mp h with rfl | hm
+    · have : (n.id == id) = false := by simpa using hne
+      simp [this]
+    · split
+      · exact List.mem_cons_of_mem _ hm
+      · exact List.mem_cons_of_mem _ (ih hm)
+
+theorem mem_of_mem_cfgAdd_ne {ns : List NodeCfg} {id : Nat} {v : Bool} {n : NodeCfg}
+    (h : n ∈ cfgAdd ns id v) (hne : n.id ≠ id) : n ∈ ns := by
+  induction ns with
+  | nil =>
+    simp only [cfgAdd, List.mem_singleton] at h
+    exact absurd (by rw [h]) hne
+  | cons a rest ih =>
+    unfold cfgAdd at h
+    split at h
+    · rcases List.mem_cons.mp h with rfl | hm
+      · exact absurd rfl hne
+      · exact List.mem_cons_of_mem _ hm
+    · rcases List.mem_cons.mp h with rfl | hm
+      · exact List.mem_cons_self
+      · exact List.mem_cons_of_mem _ (ih hm)
+
+theorem othersKept_of {id : Nat} {a b : List NodeCfg} (h : ∀ n ∈ a, n.id ≠ id → n ∈ b) :
+    othersKept id a b = true := by
+  unfold othersKept
+  rw [List.all_eq_true]
+  intro n hn
+  by_cases hid : n.id = id
+  · simp [hid]
+  · simp [hid, h n hn hid]
+
 end SgModel.Quorum
